@@ -12,4 +12,4 @@ for p in "$@"; do
   ( cd /verif && VERIF_REPO=$wt VERIF_CACHE_KEEP=40 VERIF_EVIDENCE_DIR=$out ./bin/vctl check $p ${TIER:-quick} > $out/$p.log 2>&1; echo "$id $p rc=$? $(grep -c '^VIOLATION' $out/$p.log) violation(s): $(grep -A1 '^VIOLATION' $out/$p.log | grep signature | head -3 | sed 's/  signature: //' | tr '\n' ' ')" )
 done
 git -C /repo worktree remove --force $wt
-rm -rf $out
+[ -n "$KEEP_OUT" ] || rm -rf $out
